@@ -24,7 +24,7 @@ def load_json(p):
 
 class Scratch:
     def __init__(self):
-        base = '/var/tmp'
+        base = '/var/tmp' if os.path.isdir('/var/tmp') and os.access('/var/tmp', os.W_OK) else tempfile.gettempdir()   # scratch only lives for the run
         self.dir = tempfile.mkdtemp(prefix='rarena-verif-', dir=base)
 
     def cleanup(self):
